@@ -34,6 +34,14 @@ let pn_big (x : n) : string =
 
 (* ---------- byte strings ---------- *)
 let hexchar i = "0123456789ABCDEF".[i]
+let hex_of_bytes_raw (l : n list) : string =
+  let b = Buffer.create 64 in
+  List.iter (fun x -> let v = int_of_n x in
+              if v < 256 then begin
+                Buffer.add_char b (hexchar (v lsr 4)); Buffer.add_char b (hexchar (v land 15)) end
+              else Buffer.add_string b (Printf.sprintf "<%d>" v)) l;
+  Buffer.contents b
+
 let hex_of_bytes (l : n list) : string =
   match l with
   | [] -> "-"
@@ -297,11 +305,27 @@ let handle_io (toks : string list) : string =
     let (rs, ws) = split_at "/" rest in
     let p = { pt_in = { r_content = bytes_of_hex tape; r_sched = List.map rd_ev_of_str rs };
               pt_out = { w_out = []; w_sched = List.map wr_ev_of_str ws } } in
-    (match serial_run (List.map msg_of_str msgs) p with
-     | None -> "FUEL"
-     | Some (results, p') ->
-       let outs = List.map (fun res -> match res with Ok r -> "OK " ^ str_omsg r | Err _ -> "ER") results in
-       Printf.sprintf "%s | %s | %s" (String.concat " ; " outs) (hex_of_bytes p'.pt_out.w_out) (hex_of_bytes p'.pt_in.r_content))
+    if k <= 1000 then
+      (match serial_run (List.map msg_of_str msgs) p with
+       | None -> "FUEL"
+       | Some (results, p') ->
+         let outs = List.map (fun res -> match res with Ok r -> "OK " ^ str_omsg r | Err _ -> "ER") results in
+         Printf.sprintf "%s | %s | %s" (String.concat " ; " outs) (hex_of_bytes p'.pt_out.w_out) (hex_of_bytes p'.pt_in.r_content))
+    else begin
+      (* a very long conversation: one exchange at a time, the output taken away after each (C16_output_only_appended and
+         C16_run_app say that this is serial_run) *)
+      let p = ref p in
+      let written = Buffer.create 65536 in
+      let outs = List.map (fun m ->
+          match serial_process (msg_of_str m) !p with
+          | None -> "FUEL"
+          | Some ((res, p'), _) ->
+            Buffer.add_string written (hex_of_bytes_raw p'.pt_out.w_out);
+            p := { p' with pt_out = { p'.pt_out with w_out = [] } };
+            (match res with Ok r -> "OK " ^ str_omsg r | Err _ -> "ER")) msgs in
+      let w = Buffer.contents written in
+      Printf.sprintf "%s | %s | %s" (String.concat " ; " outs) (if w = "" then "-" else w) (hex_of_bytes !p.pt_in.r_content)
+    end
   | "ODS" :: input :: rest ->
     (* ODS input reply... / wsched... : the bridge in front of a scripted bus (one scripted answer per forwarded message) *)
     let (replies, ws) = split_at "/" rest in
